@@ -47,10 +47,26 @@ def app_visible_future_attrs(ctx):
             continue
         seen.add(f)
         from ..astutil import returned_exprs
-        for v in returned_exprs(f.node):
+        values = list(returned_exprs(f.node))
+        # a returned local stands for what it was assigned (`sent = frame.sent_future; ...; return sent`)
+        for v in list(values):
+            if isinstance(v, ast.Name):
+                for n in walk_local(f.node):
+                    if isinstance(n, ast.Assign) and any(isinstance(t, ast.Name) and t.id == v.id for t in n.targets):
+                        values.append(n.value)
+        for v in values:
+            if isinstance(v, ast.Await):
+                v = v.value
             if isinstance(v, ast.Attribute):
                 attrs.setdefault(v.attr, f)
             elif isinstance(v, ast.Call) and isinstance(v.func, ast.Attribute) and depth[f] < 2:
+                if isinstance(v.func.value, ast.Name) and v.func.value.id == 'self' and f.cls is not None and \
+                        f.cls.lookup(v.func.attr) is not None:
+                    # a helper of the same class that hands the future back
+                    g = f.cls.lookup(v.func.attr)
+                    depth.setdefault(g, depth[f] + 1)
+                    work.append(g)
+                    continue
                 for c in ctx.repo.classes_defining(v.func.attr):
                     if c.is_subclass_of(slots.StreamHandler):
                         g = c.methods[v.func.attr]
